@@ -342,9 +342,9 @@ def r4_literals_and_argument_attributes(ctx, rep):
     py = ctx.py
     from . import c02
     c02.r4_masking(ctx, rep)
-    fp = py.func("FortranProcedure._cleanup")
-    first = [s for s in fp.body if not (isinstance(s, ast.Expr) and isinstance(s.value, ast.Constant))][0]
-    ok = "super()._cleanup()" in ast.unparse(first)
+    from . import c01
+    fp, i_super, i_take = c01.attribute_statements_order(py)
+    ok = i_super < i_take
     rep.ob("attribute statements are applied before dummy arguments are matched", ok,
            "intent/optional/dimension statements naming a dummy argument are shown in the argument table" if ok else
            "FortranProcedure._cleanup removes the dummy arguments from self.variables before process_attribs runs: "
@@ -390,7 +390,15 @@ def r5_selector_regexes(ctx, rep):
            "paren_split(',', args)" if ok else
            "the selector list is split at every comma: `character(len=max(1,n))` is rejected or displayed with a truncated length",
            py.nloc(splits[0] if splits else pt))
-    ok = "args = re.sub('\\\\s', '', args)" in ast.unparse(pt)
+    sel = psplits[0].args[1].id if psplits else "args"
+    def strips_blanks(v):
+        return any(isinstance(c, ast.Call) and ((call_name(c) == "re.sub" and c.args and isinstance(c.args[0], ast.Constant)
+                                                  and "\\s" in str(c.args[0].value))
+                                                 or (isinstance(c.func, ast.Attribute) and c.func.attr == "replace" and len(c.args) == 2
+                                                     and isinstance(c.args[0], ast.Constant) and c.args[0].value == " "
+                                                     and isinstance(c.args[1], ast.Constant) and c.args[1].value == "")) for c in ast.walk(v))
+    ok = any(isinstance(a, ast.Assign) and any(isinstance(t, ast.Name) and t.id == sel for t in a.targets) and strips_blanks(a.value)
+             for a in ast.walk(pt))
     rep.ob("parse_type removes blanks from the selector before matching", ok, "", py.nloc(pt), nontrivial=False)
 
 
